@@ -98,6 +98,25 @@ def copy_of_self_field_becomes_move():
     return fn
 
 
+def replace_const(old_s, new_int, new_s):
+    """the first constant operand printed as old_s (e.g. `-1_i32`) gets another value"""
+
+    def fn(j):
+        for bl in j["blocks"]:
+            for st in bl["s"]:
+                if st.get("k") == "assign":
+                    rv = st["rv"]
+                    for key in ("op", "a", "b"):
+                        o = rv.get(key)
+                        if isinstance(o, dict) and o.get("k") == "const" and o.get("s") == old_s:
+                            o["int"] = str(new_int)
+                            o["s"] = new_s
+                            return
+        raise ControlSkipped("no constant %s in %s" % (old_s, j["id"]))
+
+    return fn
+
+
 def swap_args_of_calls(callee_suffix):
     """swap the first operands of the first two calls to callee (e.g. the two lock() calls)"""
 
@@ -144,6 +163,7 @@ CONTROLS = {
         ("R1: `?` on the WAL fsync replaced by a drop", [("nomt::bitbox::writeout::write_wal", neutralise_call("Try>::branch", 3, "core::mem::drop"))], "R1|bitbox::writeout::write_wal"),
         ("R2: `?` on the completion result neutralised", [("nomt::bitbox::writeout::write_ht", neutralise_call("Try>::branch", 0, "core::mem::drop"))], "R2|bitbox::writeout::write_ht"),
         ("R6: classification of the syscall result neutralised", [("nomt::io::platform::run_worker", neutralise_call("IoKind::get_result"))], "R6|"),
+        ("R6c: a failed completion is normalised to -9 instead of -1", [("nomt::io::platform::run_worker", replace_const("-1_i32", 4294967287, "-9_i32"))], "failed-completion-can-fail"),
         ("R4: poisoning store neutralised", [("nomt::store::Store::commit", neutralise_call("::store"))], "R4|store::Store::commit"),
     ],
     "C15": [
@@ -158,6 +178,10 @@ CONTROLS = {
         ("T1: the next() driving the loop of hash_path neutralised", [("nomt_core::proof::path_proof::hash_path", neutralise_call("Iterator>::next"))], "T1|proof::path_proof::hash_path"),
         ("T2: a recursive call of verify_range passes start_depth unchanged", [("nomt_core::proof::multi_proof::verify_range", set_arg_of_call("multi_proof::verify_range", 0, 0, {"k": "copy", "pl": {"l": 1}}))], "T2|"),
         ("inventory: a new unwrap appears", [("nomt_core::proof::path_proof::hash_path", neutralise_call("::rev", 0, "core::option::Option::unwrap"))], "panicfree|proof::path_proof::hash_path|site|"),
+    ],
+    "C19": [
+        ("U1: the set_tombstone of prepare_sync neutralised", [("nomt::bitbox::DB::prepare_sync", neutralise_call("MetaMap::set_tombstone"))], "U1|"),
+        ("U2: FreeList::commit in finish neutralised", [("nomt::beatree::allocator::SyncFinisher::finish", neutralise_call("FreeList::commit"))], "U2|"),
     ],
     "C20": [
         ("D2: flock flags changed to LOCK_EX", [("nomt::sys::unix::try_lock_exclusive::{closure#0}", set_const_in_call("::flock", 1, 2))], "D2|"),
